@@ -1,6 +1,7 @@
 import BPT.Rust.ValidatorSound
 import BPT.Rust.BranchReach
 import BPT.Rust.CheckedSpec
+import BPT.Rust.Caps
 /-
   C14 — Rust validators reject every documented kind of structural damage.
 
@@ -197,6 +198,16 @@ theorem detailed_sound_partial (m : RawMap K V) (h : m.checkDetailed Cfg.repaire
 
 /-- per-node capacity fields are intact (no documented damage kind touches them) and leave room for two keys -/
 def CapsIntact (m : RawMap K V) : Prop := (∀ id l, m.getLeaf id = some l → l.cap = m.cap) ∧ 2 ≤ m.cap
+
+/-- `CapsIntact` is no extra assumption for maps the model's API builds: the arena view of every model state gives
+    each stored node the map's capacity (capacity >= 4 for every accepted constructor argument).  In the crate each
+    node carries its own `capacity` field, which the node-level policy and the validators read; that those fields
+    equal the map's capacity is the modelling convention the structural dump checks on every dump line
+    (`id:[cap=… keys=…]` prints the node's own field) — a constructor, `clear()` or split that builds a node with
+    another capacity is a dump difference at once, and is exactly the situation in which the crate's validators
+    stop being sound for the occupancy clause (they would judge a node by its own, wrong, capacity). -/
+theorem api_built_caps_intact (s : RState K V) (h : 2 ≤ s.cap) : CapsIntact (view s) :=
+  ⟨fun id l hl => view_getLeaf_cap s id l hl, h⟩
 
 /-- **Soundness of `check_invariants_detailed() = Ok(())` beyond the node level**, for every raw map with intact
     capacity fields: the walk along `next` from the leftmost leaf lists exactly the leaves the tree walk lists, in the
